@@ -284,6 +284,137 @@ theorem insert_existing : ∀ (legs : List Leg) (d v old : JsonVal), plainLegs l
           · have ho := parseIndex_nat_overflow n xs.length hn
             simp [refLookup, ho] at hl
 
+/-- **REPLACE on an existing path = SET** -/
+theorem replace_existing : ∀ (legs : List Leg) (d v old : JsonVal), plainLegs legs → refLookup legs d = some old →
+    walk legs d v .replace = walk legs d v .set := by
+  intro legs
+  induction legs with
+  | nil => intro d v old _ _; rfl
+  | cons l rest ih =>
+    intro d v old hp hl
+    cases l with
+    | key K =>
+      obtain ⟨hk, hp'⟩ := hp
+      cases d with
+      | lit s => simp [refLookup] at hl
+      | arr xs => simp [refLookup] at hl
+      | obj kvs =>
+        simp only [refLookup] at hl
+        cases hg : objGet kvs K with
+        | none => rw [hg] at hl; simp at hl
+        | some cur =>
+          rw [hg] at hl
+          simp only at hl
+          cases rest with
+          | nil => simp [walk, hg]
+          | cons l2 r2 =>
+            have := ih cur v old hp' hl
+            simp only [walk, hg, Option.getD_some, this]
+    | idx spec =>
+      cases spec with
+      | last => exact absurd hp (by simp [plainLegs])
+      | lastMinus n => exact absurd hp (by simp [plainLegs])
+      | nat n =>
+        have hp' : plainLegs rest := hp
+        cases d with
+        | lit s => simp [refLookup] at hl
+        | obj kvs => simp [refLookup] at hl
+        | arr xs =>
+          by_cases hn : n < xs.length
+          · have hpi := parseIndex_nat_inrange n xs.length hn
+            simp only [refLookup, hpi] at hl
+            have hle : ¬ ((xs.length : Int) ≤ (n : Int)) := by omega
+            simp only [Bool.false_or, hle, decide_false, Bool.false_eq_true, if_false, Int.toNat_natCast] at hl
+            have hget : xs[n]? = some xs[n] := by simp [hn]
+            rw [hget] at hl
+            simp only at hl
+            have hgt : ((xs.length : Int) > (n : Int)) := by omega
+            cases rest with
+            | nil => simp [walk, hpi, hgt]
+            | cons l2 r2 =>
+              have := ih xs[n] v old hp' hl
+              simp only [walk, hpi, hgt]
+              simp [hget, this]
+          · have ho := parseIndex_nat_overflow n xs.length hn
+            simp [refLookup, ho] at hl
+
+/-- keys of a member list are pairwise different Go strings (true of the stored form: sorted, from a Go map) -/
+def distinctKeys : List (Bytes × JsonVal) → Prop
+  | [] => True
+  | (k, _) :: t => (∀ kv ∈ t, rawKey kv.1 ≠ rawKey k) ∧ distinctKeys t
+
+theorem objGet_objDel (kvs : List (Bytes × JsonVal)) (K : Bytes) (h : distinctKeys kvs) :
+    objGet (objDel kvs K) K = none := by
+  induction kvs with
+  | nil => rfl
+  | cons kw t ih =>
+    obtain ⟨k, w⟩ := kw
+    obtain ⟨h1, h2⟩ := h
+    simp only [objDel]
+    by_cases hk : rawKey k = K
+    · simp only [hk, if_true]
+      -- no later member carries the same key
+      clear ih
+      induction t with
+      | nil => rfl
+      | cons kw2 t2 ih2 =>
+        obtain ⟨k2, w2⟩ := kw2
+        have hne : rawKey k2 ≠ K := by rw [← hk]; exact h1 (k2, w2) (by simp)
+        simp only [objGet, hne, if_false]
+        exact ih2 (fun kv hkv => h1 kv (by simp [hkv])) h2.2
+    · simp [objGet, hk, ih h2]
+
+/-- **remove, then look up** (last leg a member name): REMOVE of an existing member succeeds with
+`changed = true`, and the path then finds nothing.  (For a last leg that is an array index the cell
+`n` afterwards holds the former cell `n+1`: see `remove_index`.) -/
+theorem remove_member (kvs : List (Bytes × JsonVal)) (K : Bytes) (old : JsonVal) (hd : distinctKeys kvs)
+    (hl : objGet kvs K = some old) :
+    walk [.key K] (.obj kvs) nullLit .remove = .ok (.obj (objDel kvs K), true) ∧
+    refLookup [.key K] (.obj (objDel kvs K)) = none := by
+  constructor
+  · simp [walk, hl]
+  · simp [refLookup, objGet_objDel kvs K hd]
+
+theorem remove_index (xs : List JsonVal) (n : Nat) (hn : n < xs.length) :
+    walk [.idx (.nat n)] (.arr xs) nullLit .remove = .ok (.arr (xs.eraseIdx n), true) := by
+  have hpi := parseIndex_nat_inrange n xs.length hn
+  have hgt : ((xs.length : Int) > (n : Int)) := by omega
+  simp [walk, hpi, hgt]
+
+/-- **a mutation below an existing prefix only rewrites that place**: for every mode, the result of
+`walk (key K :: rest)` on an object whose member `K` exists is the object with member `K` replaced by
+the result of `walk rest` on that member (and unchanged when that reports no change) -/
+theorem walk_descend_key (kvs : List (Bytes × JsonVal)) (K : Bytes) (cur : JsonVal) (l2 : Leg) (r2 : List Leg)
+    (v : JsonVal) (mode : Mode) (hg : objGet kvs K = some cur) :
+    walk (.key K :: l2 :: r2) (.obj kvs) v mode =
+      (match walk (l2 :: r2) cur v mode with
+        | .error e => .error e
+        | .ok (nv, ch) => if ch then .ok (.obj (objSet kvs K nv), true) else .ok (.obj kvs, false)) := by
+  simp only [walk, hg, Option.getD_some]
+  cases walk (l2 :: r2) cur v mode with
+  | error e => rfl
+  | ok p => obtain ⟨nv, ch⟩ := p; cases ch <;> rfl
+
+/-- **ARRAY_APPEND on an existing member** -/
+theorem arrayAppend_member (kvs : List (Bytes × JsonVal)) (K : Bytes) (cur v : JsonVal) (hk : rawKey (escapeGo K) = K)
+    (hg : objGet kvs K = some cur) :
+    ∃ d', walk [.key K] (.obj kvs) v .arrayAppend = .ok (d', true) ∧
+      refLookup [.key K] d' = some (match cur with | .arr xs => .arr (xs ++ [v]) | _ => .arr [cur, v]) := by
+  cases cur with
+  | arr xs =>
+    exact ⟨.obj (objSet kvs K (.arr (xs ++ [v]))), by simp [walk, hg], by simp [refLookup, objGet_objSet _ _ _ hk]⟩
+  | lit s =>
+    exact ⟨.obj (objSet kvs K (.arr [.lit s, v])), by simp [walk, hg], by simp [refLookup, objGet_objSet _ _ _ hk]⟩
+  | obj m =>
+    exact ⟨.obj (objSet kvs K (.arr [.obj m, v])), by simp [walk, hg], by simp [refLookup, objGet_objSet _ _ _ hk]⟩
+
+/-- **ARRAY_INSERT on an existing cell** inserts before it -/
+theorem arrayInsert_cell (xs : List JsonVal) (n : Nat) (v : JsonVal) (hn : n < xs.length) :
+    walk [.idx (.nat n)] (.arr xs) v .arrayInsert = .ok (.arr (insertAt xs n v), true) := by
+  have hpi := parseIndex_nat_inrange n xs.length hn
+  have hgt : ((xs.length : Int) > (n : Int)) := by omega
+  simp [walk, hpi, hgt]
+
 /-- the refinement of DESIGN.md §6 — stored-text splice = structural edit, on canonical documents.
 **Not proved, and false of the code** at the points listed in design/C17.md (the harness replays a
 witness of each on every run); kept as the statement the correspondence checks. -/
